@@ -208,6 +208,15 @@ for _variant, _ptype, _is_list, _in in (("", "Str", "False", "l == layers"), ("@
                          ("KeyError", f"(not is_none(self._rule)) and (not ((not nonempty(unwrap(self._rule)._configuration.modules_to_check)) and {_is_list})) and "
                                       "(not (nonempty(unwrap(self._rule)._configuration.modules_to_check) and unwrap(unwrap(self._rule)._modules_to_check_to_be_specified_next))) and (not is_none(self._architecture)) and "
                                       f"exists(Str, lambda l: ({_in}) and not (l in unwrap(self._architecture)._modules_by_layer_name))")],
-                     ensures=["not is_none(self._rule)", "result == self"] + _UNCH,
-                     properties=["C13", "C16"]))
+                     ensures=["not is_none(self._rule)", "result == self"] + _UNCH + [
+                         # C05: the modules of the named layers -- one name / regex filter per listed module -- are added on the side that is being specified, the other side is untouched
+                         f"implies(unwrap(unwrap(old(self)._rule)._modules_to_check_to_be_specified_next), (not is_none(unwrap(self._rule)._configuration.modules_to_check)) and "
+                         f"forall(Filter, lambda f: (f in unwrap(unwrap(self._rule)._configuration.modules_to_check)) == (((not is_none(unwrap(old(self)._rule)._configuration.modules_to_check)) and (f in unwrap(unwrap(old(self)._rule)._configuration.modules_to_check))) or "
+                         f"exists(Str, Filter, lambda l, g: ({_in}) and (g in unwrap(self._architecture)._modules_by_layer_name[l]) and f == (mk_filter_regex(fid(g)) if is_regex(g) else mk_filter_name(fid(g)))))) and "
+                         f"unwrap(self._rule)._configuration.modules_to_check_against == unwrap(old(self)._rule)._configuration.modules_to_check_against)",
+                         f"implies(not unwrap(unwrap(old(self)._rule)._modules_to_check_to_be_specified_next), (not is_none(unwrap(self._rule)._configuration.modules_to_check_against)) and "
+                         f"forall(Filter, lambda f: (f in unwrap(unwrap(self._rule)._configuration.modules_to_check_against)) == (((not is_none(unwrap(old(self)._rule)._configuration.modules_to_check_against)) and (f in unwrap(unwrap(old(self)._rule)._configuration.modules_to_check_against))) or "
+                         f"exists(Str, Filter, lambda l, g: ({_in}) and (g in unwrap(self._architecture)._modules_by_layer_name[l]) and f == (mk_filter_regex(fid(g)) if is_regex(g) else mk_filter_name(fid(g)))))) and "
+                         f"unwrap(self._rule)._configuration.modules_to_check == unwrap(old(self)._rule)._configuration.modules_to_check)"],
+                     properties=["C13", "C16", "C05"]))
 REG.contracts[f"{LR}.are_named"].alt = REG.contracts[f"{LR}.are_named@list"]
